@@ -4,13 +4,18 @@ import NurbsVerif.Lemmas.SpanBin
 import NurbsVerif.Model.Knots
 import NurbsVerif.Lemmas.DersSum
 import NurbsVerif.Lemmas.KnotVec
+import NurbsVerif.Lemmas.KnotVec2
+import NurbsVerif.Lemmas.BasisOne2
+import NurbsVerif.Lemmas.BasisDersOne2
 
 /-!
 # C03  Basis functions and knot-span search satisfy their defining identities
 
 Property theorems only (helper lemmas live in `Lemmas/`).  `K` is any linearly ordered field
 (ℚ – hence every finite double – and ℝ).  The model functions are the ones the correspondence
-check runs against `helpers.find_span_linear`, `helpers.basis_function`, `basis_function_all`.
+check runs against `helpers.find_span_linear/binsearch`, `helpers.basis_function`, `basis_function_all`,
+`basis_function_one`, `basis_function_ders_one`, `basis_function_ders` (specification model),
+`knotvector.generate/normalize/check`, `linalg.linspace`.
 -/
 namespace C03
 open Geomdl Blossom
@@ -112,6 +117,165 @@ theorem basisFunAll_eq (p : ℕ) (U : ℕ → K) (k : ℕ) (u : K) (j i : ℕ) (
   unfold basisFunAll
   simp [List.getD_eq_getElem?_getD, hj, hi, Nat.lt_succ_of_le]
 
+/-! ### A2.4 `helpers.basis_function_one` (model `Geomdl.basisFunOne`; `m` = number of knots) -/
+
+/-- **The triangular table of A2.4 is the Cox–de Boor table**: after the levels `1..k` the working array
+    holds `N_{i,k}(u), …, N_{i+p-k,k}(u)` (the initial array: the indicators of the `p+1` knot intervals of the
+    support) – for every knot function; the zero-detection branches compute the
+    same numbers as the two-term recurrence with `0/0 := 0`. -/
+theorem basisFunOne_table (p : ℕ) (U : ℕ → K) (i k : ℕ) (u : K) (hk : k ≤ p) :
+    (List.range' 1 k).foldl (bfOneLevel U i u)
+        ((List.range (p+1)).map (fun j => if U (i + j) ≤ u ∧ u < U (i + j + 1) then (1:K) else 0))
+      = (List.range (p + 1 - k)).map (fun j => cdb U k (i + j) u) :=
+  bfOne_table U i p k u hk
+
+/-- **A2.4 never divides by zero** on non-decreasing knots: entry `j` of the table after `k` levels is
+    divided (at level `k+1`, and only if it is non-zero – the zero detection) by
+    `U (i+j+k+1) − U (i+j)`, which is then non-zero. -/
+theorem basisFunOne_divisions_safe (p : ℕ) (U : ℕ → K) (hm : Monotone U) (i k j : ℕ) (u : K) (hjk : j + k ≤ p)
+    (h : ((List.range' 1 k).foldl (bfOneLevel U i u)
+        ((List.range (p+1)).map (fun j => if U (i + j) ≤ u ∧ u < U (i + j + 1) then (1:K) else 0))).getD j 0 ≠ 0) :
+    U (i + j + k + 1) - U (i + j) ≠ 0 :=
+  bfOne_division_safe U hm i p k j u hjk h
+
+/-- A2.4 in closed form, for every non-decreasing knot function, index and parameter: the two boundary
+    special cases return 1, everything else is the Cox–de Boor function (Eq. 2.5, `0/0 := 0`). -/
+theorem basisFunOne_closed_form (p : ℕ) (U : ℕ → K) (hm : Monotone U) (m i : ℕ) (u : K) :
+    basisFunOne p U m i u
+      = if (i = 0 ∧ u = U 0) ∨ (i + p + 2 = m ∧ u = U (m - 1)) then 1 else cdb U p i u :=
+  basisFunOne_eq p U hm m i u
+
+/-- **The single-function variant equals the Cox–de Boor recursion** for every parameter of the domain
+    (`U p ≤ u`), every index, provided the first function is not degenerate (`U 0 < U (p+1)`: start
+    multiplicity at most `p+1`) – except for the last function at the last knot. -/
+theorem basisFunOne_eq_coxDeBoor (p : ℕ) (U : ℕ → K) (hm : Monotone U) (m i : ℕ) (u : K)
+    (hlo : U p ≤ u) (hdeg : U 0 < U (p+1)) (hlast : i + p + 2 = m → u ≠ U (m - 1)) :
+    basisFunOne p U m i u = cdb U p i u :=
+  basisFunOne_eq_cdb p U hm m i u hlo hdeg hlast
+
+/-- … and there (last function, last knot) the routine returns 1 whereas the half-open Cox–de Boor
+    function is 0: the special case implements the closed right end of the domain. -/
+theorem basisFunOne_last_knot (p : ℕ) (U : ℕ → K) (hm : Monotone U) (m i : ℕ) (hi : i + p + 2 = m) :
+    basisFunOne p U m i (U (m - 1)) = 1 ∧ cdb U p i (U (m - 1)) = 0 :=
+  basisFunOne_last p U hm m i hi
+
+/-- **The single-function variant equals the entry of A2.2**: on the half-open span `k` the function
+    with index `i = k − p + r` is entry `r` of `basis_function` (every `m`). -/
+theorem basisFunOne_eq_basisFuns (p : ℕ) (U : ℕ → K) (hm : Monotone U) (m k : ℕ) (u : K)
+    (hp : p ≤ k) (h1 : U k ≤ u) (h2 : u < U (k+1)) (i r : ℕ) (hir : i + p = k + r) (hr : r ≤ p) :
+    basisFunOne p U m i u = (basisFuns p U k u).getD r 0 :=
+  Blossom.basisFunOne_eq_basisFuns p U hm m k u hp h1 h2 i r hir hr
+
+/-- … all other functions vanish on that span. -/
+theorem basisFunOne_zero_outside_window (p : ℕ) (U : ℕ → K) (hm : Monotone U) (m k : ℕ) (u : K)
+    (hp : p ≤ k) (hkm : k + 1 < m) (h1 : U k ≤ u) (h2 : u < U (k+1)) (hdeg : U 0 < U (p+1)) (i : ℕ)
+    (hi : i + p < k ∨ k < i) : basisFunOne p U m i u = 0 :=
+  basisFunOne_eq_zero p U hm m k u hp hkm h1 h2 hdeg i hi
+
+/-- … and at the closed end of the domain of a knot vector clamped at the end (`k` the last span,
+    `u` the last knot) the single-function variant still equals the entry of A2.2 evaluated on the last
+    span: `0, …, 0, 1`. -/
+theorem basisFunOne_eq_basisFuns_end (p : ℕ) (U : ℕ → K) (hm : Monotone U) (m k : ℕ)
+    (hp : p ≤ k) (hm2 : k + p + 2 = m) (hne : U k < U (k+1)) (hcl : U (k+1) = U (m-1))
+    (i r : ℕ) (hir : i + p = k + r) (hr : r ≤ p) :
+    basisFunOne p U m i (U (m-1)) = (basisFuns p U k (U (m-1))).getD r 0 :=
+  Blossom.basisFunOne_eq_basisFuns_end p U hm m k hp hm2 hne hcl i r hir hr
+
+/-- **On the whole closed domain** `[U p, U n]` of a knot vector whose end is clamped with multiplicity
+    `p+1` (`n` control points, `n+p+1` knots): with the span `find_span_linear` returns, the single-function
+    variant of index `span − p + r` is entry `r` of `basis_function` – including `u = U n`. -/
+theorem basisFunOne_eq_basisFuns_domain (p : ℕ) (U : ℕ → K) (n : ℕ) (u : K) (hpn : p + 1 ≤ n) (hm : Monotone U)
+    (hlo : U p ≤ u) (hhi : u ≤ U n) (hend : U n = U (n + p)) (hne : U (n - 1) < U n) (r : ℕ) (hr : r ≤ p) :
+    basisFunOne p U (n + p + 1) (findSpanLinear p U n u - p + r) u
+      = (basisFuns p U (findSpanLinear p U n u) u).getD r 0 :=
+  Blossom.basisFunOne_eq_basisFuns_domain p U n u hpn hm hlo hhi hend hne r hr
+
+/-! ### A2.5 `helpers.basis_function_ders_one` (literal model `Geomdl.basisFunDersOne`) -/
+
+/-- A2.5 returns, for `order ≤ p` and non-decreasing knots, the list `k ↦ N^{(k)}_{i,p}(u)` of the
+    derivative recurrence Eq. 2.9 (`Blossom.cdbD`, with `0/0 := 0`; entry 0 is the Cox–de Boor function –
+    A2.5 has no boundary special case, it returns 0 at the last knot). -/
+theorem basisFunDersOne_eq_recurrence (p : ℕ) (U : ℕ → K) (hm : Monotone U) (i : ℕ) (u : K) (order : ℕ)
+    (ho : order ≤ p) :
+    basisFunDersOne p U i u order = (List.range (order + 1)).map (fun k => cdbD U k p i u) ∧
+    (basisFunDersOne p U i u order).getD 0 0 = cdb U p i u :=
+  ⟨basisFunDersOne_eq p U hm i u order ho, basisFunDersOne_getD p U hm i u order 0 ho (Nat.zero_le _)⟩
+
+/-- **A2.5 computes derivatives**: on the half-open span `κ`, entry `k` of `basis_function_ders_one` for
+    the function `i = κ − p + r` is entry `[k][r]` of the derivative table `basisDers` (the model of A2.3:
+    `k`-th derivatives at `u` of the span polynomials of the unit control sequences) – every degree,
+    non-decreasing knots, `k ≤ order ≤ p`. -/
+theorem basisFunDersOne_eq_basisDers (p : ℕ) (U : ℕ → K) (hm : Monotone U) (κ : ℕ) (u : K)
+    (hp : p ≤ κ) (h1 : U κ ≤ u) (h2 : u < U (κ+1)) (i r : ℕ) (hir : i + p = κ + r) (hr : r ≤ p)
+    (order d k : ℕ) (ho : order ≤ p) (hk : k ≤ order) (hkd : k ≤ d) :
+    (basisFunDersOne p U i u order).getD k 0 = ((basisDers p U κ u d).getD k []).getD r 0 :=
+  Geomdl.basisFunDersOne_eq_basisDers p U hm κ u hp h1 h2 i r hir hr order d k ho hk hkd
+
+/-- **The derivative part of A2.5 never divides by zero** on non-decreasing knots: entry `j` of the
+    working array `ND` for the `k`-th derivative after `s` differencing levels is divided (at level `s+1`,
+    only if non-zero – zero detection) by `U (i+j+(p−k+s)+1) − U (i+j)`, which is then non-zero.  (The
+    table part is the loop of A2.4: `basisFunOne_divisions_safe`.) -/
+theorem basisFunDersOne_divisions_safe (p : ℕ) (U : ℕ → K) (hm : Monotone U) (i : ℕ) (u : K) (k s j : ℕ)
+    (hk : k ≤ p) (hjs : j + s ≤ k)
+    (h : ((List.range' (p - k + 1) s).foldl (bdoLevel U i) (bdoColumn p U i u (p - k))).getD j 0 ≠ 0) :
+    U (i + j + (p - k + s) + 1) - U (i + j) ≠ 0 :=
+  bdo_division_safe p U hm i u k s j hk hjs h
+
+/-! ### knot-vector utilities, continued -/
+
+/-- `knotvector.check` accepts exactly the lists of length `p + n + 1` without a descent. -/
+theorem knotCheck_iff (p n : ℕ) (U : List K) :
+    knotCheck p U n = true ↔ U.length = p + n + 1 ∧ ∀ i, i + 1 < U.length → U.getD i 0 ≤ U.getD (i+1) 0 :=
+  Geomdl.knotCheck_iff p n U
+
+/-- **Generated knot vectors are non-decreasing and pass the validity check** (clamped or not). -/
+theorem knotGenerate_valid (p n : ℕ) (clamped : Bool) (tol : K) (htol : tol < 1) (hp : 1 ≤ p) (hn : p + 1 ≤ n) :
+    isSortedB (knotGenerate p n clamped tol : List K) = true ∧
+    knotCheck p (knotGenerate p n clamped tol : List K) n = true :=
+  ⟨knotGenerate_sorted p n clamped tol htol hp hn, knotCheck_generate p n clamped tol htol hp hn⟩
+
+/-- Entries of a clamped generated vector: `p` zeros, then `j/(n−p)` for `j = 0..n−p`, then `p` ones;
+    of an unclamped one: `i/(n+p)`. -/
+theorem knotGenerate_entries (p n : ℕ) (tol : K) (htol : tol < 1) (hn : p + 1 ≤ n) (i : ℕ) (hi : i ≤ n + p) :
+    (knotGenerate p n true tol : List K).getD i 0
+        = (if i < p then 0 else if i ≤ n then ((i - p : ℕ) : K) / ((n - p : ℕ) : K) else 1) ∧
+    (knotGenerate p n false tol : List K).getD i 0 = (i : K) / ((n + p : ℕ) : K) :=
+  ⟨knotGenerate_clamped_getD p n tol htol hn i hi, knotGenerate_unclamped_getD p n tol htol hn i hi⟩
+
+/-- A clamped generated vector ends with `p + 1` ones, and the knots strictly between the two end
+    blocks lie strictly between 0 and 1 (so both end multiplicities are exactly `p + 1`). -/
+theorem knotGenerate_clamped_end (p n : ℕ) (tol : K) (htol : tol < 1) (hn : p + 1 ≤ n) (i : ℕ) :
+    (n ≤ i → i ≤ n + p → (knotGenerate p n true tol : List K).getD i 0 = 1) ∧
+    (p < i → i < n → 0 < (knotGenerate p n true tol : List K).getD i 0 ∧
+      (knotGenerate p n true tol : List K).getD i 0 < 1) :=
+  ⟨fun h1 h2 => Geomdl.knotGenerate_clamped_end p n tol htol hn i h1 h2,
+   fun h1 h2 => knotGenerate_clamped_interior p n tol htol hn i h1 h2⟩
+
+/-- Normalisation is idempotent, strictly order preserving, does not change the verdict of `check`, and
+    leaves generated vectors unchanged. -/
+theorem knotNormalize_idempotent (V : List K) (hne : V ≠ []) (hrange : V.headD 0 < V.getLastD 0) :
+    knotNormalize (knotNormalize V) = knotNormalize V ∧
+    (∀ i j, fnOf V i < fnOf V j → fnOf (knotNormalize V) i < fnOf (knotNormalize V) j) ∧
+    (∀ p n, knotCheck p (knotNormalize V) n = knotCheck p V n) :=
+  ⟨knotNormalize_idem V hne hrange, fun i j h => knotNormalize_strict V hne hrange i j h,
+   fun p n => knotCheck_normalize p n V hrange⟩
+
+/-- Generated knot vectors are already normalised (first knot 0, last knot 1). -/
+theorem knotNormalize_generate (p n : ℕ) (clamped : Bool) (tol : K) (htol : tol < 1) (hp : 1 ≤ p) (hn : p + 1 ≤ n) :
+    knotNormalize (knotGenerate p n clamped tol : List K) = knotGenerate p n clamped tol :=
+  Geomdl.knotNormalize_generate p n clamped tol htol hp hn
+
+/-- `linalg.linspace`: `num ≥ 2` evenly spaced values `a + i (b − a)/(num − 1)` when the end values differ
+    by more than the tolerance, the single value `a` otherwise. -/
+theorem linspace_spec (a b : K) (num : ℕ) (tol : K) :
+    (tol < |a - b| → 2 ≤ num → (linspace a b num tol).length = num ∧
+      ∀ i, i < num → (linspace a b num tol).getD i 0 = a + (i : K) * (b - a) / ((num - 1 : ℕ) : K)) ∧
+    (|a - b| ≤ tol ∨ num ≤ 1 → linspace a b num tol = [a]) :=
+  ⟨fun h1 h2 => by
+      rw [linspace_eq_core a b num tol h1 h2]
+      exact ⟨linspaceCore_length a b num, fun i hi => linspaceCore_getD a b num i hi⟩,
+   linspace_degenerate a b num tol⟩
+
 /-- non-vacuity: the hypotheses are met by the cubic clamped vector 0,0,0,0,1,1,1,1 on span 3 at u = 1/2 -/
 example : SpanOk (fun i => if i ≤ 3 then (0:ℚ) else 1) 3 (1/2) where
   mono := by
@@ -120,5 +284,33 @@ example : SpanOk (fun i => if i ≤ 3 then (0:ℚ) else 1) 3 (1/2) where
   lo := by norm_num
   hi := by norm_num
   nonempty := by norm_num
+
+/-- non-vacuity of the A2.4 theorems: cubic, 8 knots 0,0,0,0,1,1,1,1, span 3; interior parameter, the
+    first function at the first knot and the last function at the last knot -/
+example : basisFunOne 3 (fun i : ℕ => if i ≤ 3 then (0:ℚ) else 1) 8 1 (1/2) = 3/8 := by
+  rw [basisFunOne_eq_basisFuns 3 _ cubicBezierKnots_mono 8 3 (1/2) (le_refl _) (by norm_num) (by norm_num)
+    1 1 rfl (by omega)]
+  decide +kernel
+example : basisFunOne 3 (fun i : ℕ => if i ≤ 3 then (0:ℚ) else 1) 8 0 0
+    = cdb (fun i : ℕ => if i ≤ 3 then (0:ℚ) else 1) 3 0 0 :=
+  basisFunOne_eq_coxDeBoor 3 _ cubicBezierKnots_mono 8 0 0 (by norm_num) (by norm_num) (by omega)
+example : basisFunOne 3 (fun i : ℕ => if i ≤ 3 then (0:ℚ) else 1) 8 3 1
+    = (basisFuns 3 (fun i : ℕ => if i ≤ 3 then (0:ℚ) else 1) 3 1).getD 3 0 := by
+  have := basisFunOne_eq_basisFuns_end 3 (fun i : ℕ => if i ≤ 3 then (0:ℚ) else 1) cubicBezierKnots_mono 8 3
+    (le_refl _) rfl (by norm_num) (by norm_num) 3 3 rfl (le_refl _)
+  simpa using this
+example : basisFunOne 3 (fun i : ℕ => if i ≤ 3 then (0:ℚ) else 1) (4 + 3 + 1)
+      (findSpanLinear 3 (fun i : ℕ => if i ≤ 3 then (0:ℚ) else 1) 4 1 - 3 + 3) 1
+    = (basisFuns 3 (fun i : ℕ => if i ≤ 3 then (0:ℚ) else 1) (findSpanLinear 3 (fun i : ℕ => if i ≤ 3 then (0:ℚ) else 1) 4 1) 1).getD 3 0 :=
+  basisFunOne_eq_basisFuns_domain 3 _ 4 1 (by omega) cubicBezierKnots_mono (by norm_num) (by norm_num) (by norm_num)
+    (by norm_num) 3 (le_refl _)
+example : ((basisFunDersOne 3 (fun i : ℕ => if i ≤ 3 then (0:ℚ) else 1) 1 (1/2) 3).getD 1 0
+    = ((basisDers 3 (fun i : ℕ => if i ≤ 3 then (0:ℚ) else 1) 3 (1/2) 3).getD 1 []).getD 1 0) :=
+  basisFunDersOne_eq_basisDers 3 _ cubicBezierKnots_mono 3 (1/2) (le_refl _) (by norm_num) (by norm_num) 1 1 rfl
+    (by omega) 3 3 1 (le_refl _) (by omega) (by omega)
+/-- non-vacuity of the knot-vector theorems -/
+example : (knotGenerate 2 5 true (1/10000000 : ℚ) : List ℚ) = [0, 0, 0, 1/3, 2/3, 1, 1, 1] := by decide +kernel
+example : ([1, 2, 4, 7] : List ℚ) ≠ [] ∧ ([1, 2, 4, 7] : List ℚ).headD 0 < ([1, 2, 4, 7] : List ℚ).getLastD 0 := by
+  decide +kernel
 
 end C03
